@@ -456,6 +456,9 @@ func c17(r *Report, s *Sem) {
 				if b, isBasic := elem.Underlying().(*types.Basic); isBasic && b.Info()&types.IsConstType != 0 {
 					continue
 				}
+				if isPlainData(elem, 0) && !writtenOutsideInit(p, g) {
+					continue // a read-only table of texts/numbers (error prefixes, …) cannot carry anything between sessions
+				}
 				shared = append(shared, g.Name()+" in "+fnName(fn))
 			}
 		})
@@ -935,4 +938,40 @@ func cfgShape(fn *ssa.Function) string {
 		sb.WriteString("]")
 	}
 	return sb.String()
+}
+
+// isPlainData: basic types and structs/arrays of them — no pointers, maps, slices, channels, interfaces or functions.
+func isPlainData(t types.Type, d int) bool {
+	if d > 4 {
+		return false
+	}
+	switch x := t.Underlying().(type) {
+	case *types.Basic:
+		return x.Kind() != types.UnsafePointer
+	case *types.Struct:
+		for i := 0; i < x.NumFields(); i++ {
+			if !isPlainData(x.Field(i).Type(), d+1) {
+				return false
+			}
+		}
+		return true
+	case *types.Array:
+		return isPlainData(x.Elem(), d+1)
+	}
+	return false
+}
+
+func writtenOutsideInit(p *Prog, g *ssa.Global) bool {
+	written := false
+	for _, fn := range p.LimeFuncs() {
+		if strings.HasPrefix(topLevel(fn).Name(), "init") {
+			continue
+		}
+		eachInstr(fn, func(in ssa.Instruction) {
+			if st, ok := in.(*ssa.Store); ok && pathOf(st.Addr).Root == ssa.Value(g) {
+				written = true
+			}
+		})
+	}
+	return written
 }
